@@ -211,3 +211,164 @@ _sys2("C13", "C13Scenario", "system-c13",
       ["server_dispatcher", "server_pooled", "server_version_1.0", "server_version_2.0", "two_dispatches_in_flight",
        "mixed_1.0_and_2.0_requests", "dispatch_direct", "dispatch_instance"],
       {"quick": 45, "thorough": 900})
+
+
+REAL_CLI = [
+    "jsonrpclib.jsonrpc (ServerProxy, MultiCall, Transport, UnixTransport, TransportMixIn, JSONTarget) - real code, line-level pre-emption",
+    "stdlib http.client, xmlrpc.client.Transport (connection cache, single silent retry, gzip decoding), socket.SocketIO, io buffering, json, gzip - real code",
+]
+STUB_CLI = [
+    "the HTTP server: simverif/peer.py scripted raw peer (records every request verbatim, answers from a fault script)",
+    "kernel sockets: simverif/simnet.py",
+    "threading primitives and clocks: simulated",
+]
+
+
+def _c19():
+    from . import clientcheck
+
+    def run(tier, seed, budget_s, jobs):
+        scn = clientcheck.C19Scenario(tier)
+        return runner.run_check(
+            lambda: scn, "client-c19", "C19", "C19", tier, seed, budget_s, jobs,
+            level="fault_enumeration",
+            rule=("every fault script up to length %d over the 11-symbol alphabet of the property (scripts ending in a healthy symbol are "
+                  "identified with their prefix) x {TCP, Unix} x {write to a closed peer seen as EOF, as reset, as EPIPE} is run once "
+                  "(run indices 0..%d, exhaustive: true when all were executed); further indices are seeded random scripts of length 1-12 "
+                  "with random segmentation and HTTP/1.0 peers under random schedules. distinct = distinct digest of (schedule, history, "
+                  "network choices); non-trivial = the script contains at least one symbol" % (scn.maxlen, scn.must_cover - 1)),
+            assumptions=["one ServerProxy used sequentially (the property speaks of one proxy)", "len(script)+3 calls per run",
+                         "the enumerated part runs under whichever seeded schedule its run index draws; schedules matter little here (client and peer alternate)"],
+            real_components=REAL_CLI, stub_components=STUB_CLI,
+            required_probes=["sym_" + x for x in clientcheck.peermod.FAULTS] + ["transport_error_raised", "silent_retry_consumed_two_symbols",
+                                                                                "write_to_closed_peer", "family_tcp", "family_unix"])
+
+    return run
+
+
+REGISTRY["C19"] = {"budget": {"quick": 30, "thorough": 900}, "run": _c19()}
+
+
+def _c19_scn(body=None):
+    from . import clientcheck
+
+    tier = "quick"
+    if body and body.get("scenario_args"):
+        tier = body["scenario_args"].get("tier", "quick")
+    return clientcheck.C19Scenario(tier)
+
+
+SCENARIOS["client-c19"] = _c19_scn
+FAMILY["C19"] = _c19_scn
+
+
+def _c18():
+    from . import clientcheck
+
+    def run(tier, seed, budget_s, jobs):
+        return runner.run_check(
+            clientcheck.C18Scenario, "client-c18", "C18", "C18", tier, seed, budget_s, jobs,
+            level="exploration",
+            rule=("each evaluation = one generated history (JSON tree, see samples): constructor headers, then nested _additional_headers "
+                  "blocks (0-4 deep, names in random letter case incl. the protected ones and User-Agent, string and non-string values) "
+                  "containing calls / notifications / batches, calls hit by an injected transport fault (refuse, reset, 4xx/5xx, truncated, "
+                  "close before reply) and user exceptions, with try blocks deciding how far an exception travels; run once against the recording "
+                  "peer. distinct = distinct digest; non-trivial = at least one block"),
+            assumptions=["one definition per header name inside one dictionary (two spellings of one name in the same dict have no 'most recent')",
+                         "header values are latin-1 encodable", "sampling, not exhaustive"],
+            real_components=REAL_CLI, stub_components=STUB_CLI,
+            required_probes=["block_exit_normal", "block_exit_exception", "fault_refuse", "fault_reset", "fault_5xx-len", "fault_truncated",
+                             "user_agent_overridden", "nesting_3_or_more", "same_name_in_other_case", "protected_name_pushed", "notify", "batch"])
+
+    return run
+
+
+REGISTRY["C18"] = {"budget": {"quick": 30, "thorough": 600}, "run": _c18()}
+
+
+def _c18_scn(body=None):
+    from . import clientcheck
+
+    return clientcheck.C18Scenario()
+
+
+SCENARIOS["client-c18"] = _c18_scn
+FAMILY["C18"] = _c18_scn
+
+
+def _c17():
+    from . import clientcheck
+
+    def run(tier, seed, budget_s, jobs):
+        return runner.run_check(
+            clientcheck.C17Scenario, "client-c17", "C17", "C17", tier, seed, budget_s, jobs,
+            level="exploration",
+            rule=("each evaluation = one generated case (JSON, see samples) in one of four modes: real client against the recording peer "
+                  "(URL path/query, content type, identity/gzip/chunked response whose multi-byte characters straddle the client's 1024-byte reads, "
+                  "random segmentation); real plain/pooled server behind the network fed a raw UTF-8 request whose multi-byte characters straddle "
+                  "the read-chunk boundary (chunk size clamped by a knob, 'buggify'); CGI handler with captured stdout; unsupported URL schemes. "
+                  "A second JSON back-end that emits raw UTF-8 is drawn per run. distinct = distinct digest; non-trivial = client or server mode"),
+            assumptions=["the read-chunk knob shadows the builtin min() inside SimpleJSONRPCServer for the run (do_POST is its only user); production uses 10 MiB",
+                         "the 'raw-utf8' back-end stands for the optional JSON libraries jsonlib can select (only the standard json module is installed)",
+                         "framing, URL and scheme clauses are functions of the input; the simulator contributes the wire observation point, segmentation and the chunk knob"],
+            real_components=REAL_CLI + ["jsonrpclib.SimpleJSONRPCServer do_POST / CGI handler - real code"], stub_components=STUB_CLI,
+            required_probes=["mode_client", "mode_server", "mode_cgi", "mode_scheme", "backend_raw_utf8", "encoding_gzip", "encoding_chunked",
+                             "multibyte_response_beyond_first_read", "multibyte_request_with_small_read_chunk", "query_string",
+                             "percent_escape_in_path", "family_unix", "short_reads"])
+
+    return run
+
+
+REGISTRY["C17"] = {"budget": {"quick": 30, "thorough": 600}, "run": _c17()}
+
+
+def _c17_scn(body=None):
+    from . import clientcheck
+
+    return clientcheck.C17Scenario()
+
+
+SCENARIOS["client-c17"] = _c17_scn
+FAMILY["C17"] = _c17_scn
+
+
+def _c02():
+    from . import c02check
+
+    def run(tier, seed, budget_s, jobs):
+        scn = c02check.C02Scenario(tier)
+        return runner.run_check(
+            lambda: scn, "c02", "C02", "C02", tier, seed, budget_s, jobs,
+            level="fault_enumeration",
+            rule=("one evaluation = one server (plain / pooled behind the simulated network, or bare dispatcher) fed up to %d damaged variants of one "
+                  "corpus entry and then a healthy probe; damage = the sending peer dies after k body bytes (every k on a character boundary; "
+                  "the declared Content-Length stays) or one character is replaced by one of %d characters. Run indices 0..%d enumerate "
+                  "the damage positions of the fixed corpus (%s) and are all executed (exhaustive: true for that corpus); further indices "
+                  "are seeded corpus entries with a random sample of their damage. coverage.damaged_bodies_judged counts individual bodies. "
+                  "distinct = distinct digest; non-trivial = at least one in-domain body judged" % (
+                      scn.BATCH, len(c02check.ALPHABET), scn.must_cover - 1,
+                      "10 requests + every structural member variant" if tier == "thorough" else "10 requests + a third of the structural member variants; long entries: every truncation and every third replacement position")),
+            assumptions=["bodies containing the NaN/Infinity literals are outside the property's domain: counted, not judged",
+                         "registered callables return JSON-representable values or raise ordinary exceptions; payloads are free of __jsonclass__",
+                         "the corpus is a sample: exhaustive only over damage positions of the listed entries"],
+            real_components=REAL_SYS, stub_components=STUB_SYS,
+            required_probes=["server_plain", "server_pooled", "server_dispatcher", "damage_trunc", "damage_repl", "empty_reply",
+                             "parse_error_reply", "invalid_request_reply", "success_reply"])
+
+    return run
+
+
+REGISTRY["C02"] = {"budget": {"quick": 45, "thorough": 900}, "run": _c02()}
+
+
+def _c02_scn(body=None):
+    from . import c02check
+
+    tier = "quick"
+    if body and body.get("scenario_args"):
+        tier = body["scenario_args"].get("tier", "quick")
+    return c02check.C02Scenario(tier)
+
+
+SCENARIOS["c02"] = _c02_scn
+FAMILY["C02"] = _c02_scn
